@@ -490,7 +490,8 @@ pub fn program_units(p: &Program) -> Vec<ExpUnit> {
 pub fn ret_err_reached(p: &Program) -> Option<u32> {
     let (at, tok) = p.ret_err?;
     let n = p.units.len();
-    if (at as usize) < n {
+    if (at as usize) < n || (at as usize) > n {
+        // before a unit, or after the complete response ("report, then hang up")
         return Some(tok);
     }
     let early_return = match p.units.last() {
